@@ -154,6 +154,27 @@ def harness(env, case):
                 check_common(env, M, ref, new, affected)
             else:
                 check_group(env, M, ref, new, affected, seen)
+                # the same frames evaluated on the RESULT (which already has a slot for the new group): the answer
+                # depends on the design and the frame only
+                try:
+                    with env.running():
+                        again_seen = new.evaluate_new_data(seen)
+                        if env.mode == "sym":
+                            with pipe.symbolic_numpy():
+                                again_unseen = new.evaluate_new_data(unseen)
+                        else:
+                            again_unseen = new.evaluate_new_data(unseen)
+                except symx.PathEnd:
+                    raise
+                except symx.Inconclusive:
+                    raise
+                except Exception as e:
+                    env.fail("group: a result of evaluate_new_data cannot evaluate new data itself", {"exc": type(e).__name__, "site": core.repo_site(e)})
+                    continue
+                env.prove(tuple(again_seen.factors_with_new_levels) == tuple(ref.factors_with_new_levels) and tuple(again_unseen.factors_with_new_levels) == tuple(new.factors_with_new_levels),
+                          "group: factors_with_new_levels does not depend on the instance evaluate_new_data is called on")
+                env.prove_equal(np.asarray(again_seen.design_matrix), np.asarray(ref.design_matrix), "group: chained evaluation of known groups == direct evaluation")
+                env.prove_equal(np.asarray(again_unseen.design_matrix), np.asarray(new.design_matrix), "group: chained evaluation of unseen groups == direct evaluation")
     finally:
         config["EVAL_UNSEEN_CATEGORIES"] = "error"
 
